@@ -3,6 +3,7 @@ import Panacea.Driver.Aol
 import Panacea.Driver.Did
 import Panacea.Driver.Validate
 import Panacea.Driver.Pnft
+import Panacea.Driver.Tx
 /-! Model driver: one operation per input line, one answer per output line. -/
 open Panacea Panacea.Driver
 
@@ -12,6 +13,7 @@ structure DState where
   sigs : SigTable := {}
   did : DidD := {}
   pnft : PnftD := {}
+  tx : TxD := {}
 
 def stepLine (st : DState) (line : String) : DState × String :=
   let toks := (line.splitOn " ").filter (· ≠ "")
@@ -26,10 +28,10 @@ def stepLine (st : DState) (line : String) : DState × String :=
     match Bytes.ofHex sg, Bytes.ofHex pk, Bytes.ofHex m with
     | some a, some b, some c => ({ st with sigs := { entries := (a, b, c) :: st.sigs.entries } }, "-")
     | _, _, _ => (st, "bad-op")
-  | ["reset"] => ({ st with aol := {}, did := {}, pnft := {} }, "-")
+  | ["reset"] => ({ st with aol := {}, did := {}, pnft := {}, tx := {} }, "-")
   | ["now", n] =>
     match n.toInt? with
-    | some t => ({ st with aol := { st.aol with now := t }, pnft := { st.pnft with now := t } }, "-")
+    | some t => ({ st with aol := { st.aol with now := t }, pnft := { st.pnft with now := t }, tx := { st.tx with now := t } }, "-")
     | none => (st, "bad-op")
   | tok :: _ =>
     if tok.startsWith "ck." then
@@ -37,6 +39,10 @@ def stepLine (st : DState) (line : String) : DState × String :=
     else if tok = "reset" || tok = "now" || tok.startsWith "aol." || tok.startsWith "mon.c01." then
       match aolStep st.addrs st.aol toks with
       | some (d, ans) => ({ st with aol := d }, ans)
+      | none => (st, "bad-op")
+    else if tok = "tx" || tok.startsWith "tx." || tok = "grant" then
+      match txStep st.addrs st.sigs st.tx toks with
+      | some (d, ans) => ({ st with tx := d }, ans)
       | none => (st, "bad-op")
     else if tok.startsWith "pnft." || tok = "mon.c12" then
       match pnftStep st.addrs st.pnft toks with
